@@ -120,7 +120,7 @@ class Lifted:
 
 
 def lift(ctx, name, cpp, roots, defines=(), ub=False, models=(), sharable=0, prelude=True, extra_clang=(),
-         no_inline=False, retype=None):
+         no_inline=False, retype=None, libocca=False):
     """clang++ -> LLVM IR -> C.  Returns Lifted(c, h, ll, functions)."""
     ll = ctx.path(name, name + '.ll')
     cmd = ['clang++-14'] + CLANG_FLAGS + include_flags(ctx, sharable) + ['-D' + d for d in defines]
@@ -156,6 +156,7 @@ def lift(ctx, name, cpp, roots, defines=(), ub=False, models=(), sharable=0, pre
     for mm in L.models:
         ctx.models.add(os.path.relpath(mm, VERIF))
     L.native = None
+    L.libocca = libocca
     L.native_gen = None
     return L
 
@@ -312,7 +313,14 @@ def native_build(ctx, L, harness, defines=(), sanitize=True, tag='n'):
         rc, o, e, s, _ = sh(['gcc', '-O0', '-g', '-w'] + san + ['-c', os.path.join(LIFT, 'vnative.c'), '-o', nobj], timeout=300)
         if rc != 0:
             raise Inconclusive('vnative build failed: ' + e[-2000:])
-    rc, o, e, s, _ = sh(['g++'] + san + [hobj, wobj, nobj, '-o', exe, '-Wl,--gc-sections', '-Wl,--unresolved-symbols=ignore-all', '-lpthread', '-ldl'], timeout=300)
+    if getattr(L, 'libocca', False):
+        # functions of other occa units the wrapper TU references are taken from the real library built from the same tree
+        from . import okl
+        okl.occa_bin(ctx)
+        link = ['-L' + ctx._occa_lib, '-locca', '-Wl,-rpath,' + ctx._occa_lib]
+    else:
+        link = ['-Wl,--unresolved-symbols=ignore-all']
+    rc, o, e, s, _ = sh(['g++'] + san + [hobj, wobj, nobj, '-o', exe, '-Wl,--gc-sections'] + link + ['-lpthread', '-ldl'], timeout=300)
     if rc != 0:
         raise Inconclusive('native link failed: ' + e[-2000:])
     return exe
@@ -338,7 +346,7 @@ def gen_build(ctx, L, harness, defines=(), tag='g'):
     if os.path.exists(exe):
         return exe
     cmd = ['gcc', '-std=gnu11', '-O0', '-w', '-fwrapv', '-fno-strict-aliasing', '-fno-builtin', '-DVNATIVE', '-I' + LIFT, '-I' + L.dir] + ['-D' + d for d in defines] \
-        + ['-include', os.path.join(LIFT, 'cprover_native.h'), harness, L.c] + L.models + [os.path.join(LIFT, 'vnative.c'), '-o', exe, '-lm']
+        + ['-include', os.path.join(LIFT, 'cprover_native.h'), harness, L.c] + L.models + [os.path.join(LIFT, 'vnative.c'), '-o', exe, '-lm', '-no-pie', '-Wl,--unresolved-symbols=ignore-all']
     rc, o, e, s, _ = sh(cmd, timeout=600)
     if rc != 0:
         raise Inconclusive('gcc build of lifted C failed: ' + e[-3000:])
@@ -460,9 +468,10 @@ def replay_failure(ctx, q, rec, slot):
         f.write('property %s query %s\n%s\nfailed: %s\n' % (ctx.pid, q.name, q.desc, rec.get('failed')))
         f.write('inputs (values.txt, hex): see file\nreplay: %s/check %s --replay %s\n' % (VERIF, ctx.pid, d))
         f.write('native outcome rc=%s\n%s\n' % (rc, (o + e)[-3000:]))
+    shutil.copy(q.harness, os.path.join(d, 'harness.c'))
     with open(os.path.join(d, 'meta.json'), 'w') as f:
         json.dump({'property': ctx.pid, 'query': q.name, 'harness': os.path.relpath(q.harness, VERIF), 'defines': q.defines,
-                   'wrapper': os.path.relpath(q.L.cpp, VERIF), 'wrapper_defines': q.L.defines, 'sharable': q.L.sharable,
+                   'wrapper': os.path.relpath(q.L.cpp, VERIF), 'wrapper_defines': q.L.defines, 'sharable': q.L.sharable, 'libocca': getattr(q.L, 'libocca', False),
                    'prelude': q.L.prelude}, f, indent=1)
     return d, reproduced
 
@@ -629,14 +638,14 @@ def do_replay(ctx, d):
         print(o[-3000:] + e[-2000:])
         print('replay rc=%s' % rc)
         return 1 if rc != 0 else 0
-    L = Lifted()
-    L.cpp = os.path.join(VERIF, meta['wrapper']); L.defines = meta.get('wrapper_defines', [])
-    L.sharable = meta.get('sharable', 0); L.prelude = meta.get('prelude', True)
-    L.dir = ctx.path('replay', 'x')
-    os.makedirs(L.dir, exist_ok=True)
-    # roots header is needed by the harness: regenerate by lifting
-    roots = meta.get('roots')
-    exe = native_build(ctx, L, os.path.join(VERIF, meta['harness']), meta.get('defines', []))
+    # E1: lift again from the current tree (regenerates the roots header the harness includes), then run the stored
+    # harness natively against the g++ build of the real functions
+    import importlib
+    mod = importlib.import_module('props.' + ctx.pid)
+    L = mod.relift(ctx)
+    hc = os.path.join(d, 'harness.c')
+    harness = hc if os.path.exists(hc) else os.path.join(VERIF, meta['harness'])
+    exe = native_build(ctx, L, harness, meta.get('defines', []))
     rc, o, e = run_native(exe, os.path.join(d, 'values.txt'))
     print(o[-3000:] + e[-3000:])
     print('replay rc=%s (%s)' % (rc, 'reproduced' if rc not in (0, 3) else 'not reproduced'))
